@@ -26,6 +26,8 @@ def run(run):
                     tup = call(lat.as_iterable(run, args))
                     raw = call(lat.as_iterable(run, args), raw=True)
                     got = tomask(tup)
+                    if not hasattr(raw, 'members') or isinstance(raw, tuple):
+                        run.fail('%s(raw=True) does not return a bitset' % side, repr(raw), 'a bitset', [pc.line, r])
                     if tuple(raw.members()) != tuple(tup) or int(raw) != got:
                         run.fail('%s raw and tuple forms differ' % side, [list(tup), int(raw)], None, [pc.line, r])
                 reqs.append(r)
